@@ -5,6 +5,7 @@
   assumed where the owner of a looked-up element has to be known.
 -/
 import Cjet.Lemmas.DaemonC03Elem
+import Cjet.Lemmas.DaemonC03Step
 
 namespace Cjet.Daemon.C14
 
@@ -114,5 +115,295 @@ theorem ep_addElement (cfg : Config) (x : Ctx) (p : Peer) (req : Json) (h : EP P
        · exact hq e' he'
        · rw [(findFetchersForElement_sig ..).1, (findFetchersForElement_sig ..).2, hqc]
          exact hnew _ _ _ (by assumption) (by assumption))
+
+theorem ep_removeElement (x : Ctx) (e : Element) (h : EP P x.st) : EP P (removeElement x e).st := by
+  unfold removeElement
+  simp only [notifyFetchers_st]
+  apply ep_updatePeer h
+  intro q _ _ hq e' he'
+  exact hq e' (List.mem_filter.mp he').1
+
+theorem ep_removeElementReq (x : Ctx) (p : Peer) (req : Json) (h : EP P x.st) :
+    EP P (removeElementReq x p req).1.st := by
+  unfold removeElementReq
+  repeat' (first | split | dsimp only)
+  all_goals (first | exact h | exact ep_removeElement _ _ h)
+
+theorem ep_offer_step (cfg : Config) (y : Ctx) (oc : Nat) (e : Element) (fp : Peer) (f : Fetch)
+    (hy : EP P y.st) (hpe : P oc e.path e.timeoutNs) :
+    EP P ({ (offerElement cfg y e fp f).1 with st := { (offerElement cfg y e fp f).1.st with
+      peers := updatePeer (offerElement cfg y e fp f).1.st.peers oc (fun q =>
+        { q with elements := q.elements.map (fun el =>
+          if el.path == (offerElement cfg y e fp f).2.path then (offerElement cfg y e fp f).2 else el) }) } } : Ctx).st := by
+  simp only [offerElement_st]
+  apply ep_updatePeer hy
+  intro q _ hqc hq e' he'
+  obtain ⟨el, hel, rfl⟩ := List.mem_map.mp he'
+  have hs := offerElement_sig cfg y e fp f
+  by_cases hc : (el.path == (offerElement cfg y e fp f).2.path) = true
+  · simp only [hc, ↓reduceIte]
+    show P q.conn _ _
+    rw [hs.1, hs.2, hqc]; exact hpe
+  · simp only [hc, Bool.false_eq_true, ↓reduceIte]
+    exact hq el hel
+
+theorem ep_offerAllElements (cfg : Config) (x : Ctx) (fp : Peer) (f : Fetch) (h : EP P x.st) :
+    EP P (offerAllElements cfg x fp f).st := by
+  unfold offerAllElements
+  apply foldl_inv (fun (y : Ctx) => EP P y.st)
+  · exact h
+  · intro y owner hown hy
+    apply foldl_inv (fun (y : Ctx) => EP P y.st)
+    · exact hy
+    · intro y' e0 he0 hy'
+      dsimp only
+      apply ep_offer_step cfg y' owner.conn _ fp f hy'
+      split
+      · next e hfind =>
+        obtain ⟨q', hq', hfe⟩ := Option.bind_eq_some_iff.mp hfind
+        have := hy' q' (findPeer_mem hq') e (List.mem_of_find?_eq_some hfe)
+        rwa [findPeer_conn hq'] at this
+      · exact h owner hown e0 he0
+
+theorem ep_fetchReq (cfg : Config) (x : Ctx) (p : Peer) (req : Json) (h : EP P x.st) :
+    EP P (fetchReq cfg x p req).1.st := by
+  unfold fetchReq
+  repeat' (first | split | dsimp only)
+  all_goals (first | exact h | skip)
+  all_goals
+    apply ep_offerAllElements
+    exact ep_updatePeer h (fun _ _ _ hq => hq)
+
+theorem ep_unfetchReq (x : Ctx) (p : Peer) (req : Json) (h : EP P x.st) : EP P (unfetchReq x p req).1.st := by
+  unfold unfetchReq
+  repeat' (first | split | dsimp only)
+  all_goals (first | exact h | skip)
+  unfold dropFetch
+  exact ep_updatePeer (ep_mapElements h (fun _ => ⟨rfl, rfl⟩)) (fun _ _ _ hq => hq)
+
+theorem ep_getReq (cfg : Config) (x : Ctx) (p : Peer) (req : Json) (h : EP P x.st) : EP P (getReq cfg x p req).1.st := by
+  unfold getReq
+  repeat' (first | split | dsimp only)
+  all_goals exact h
+
+theorem ep_configReq (x : Ctx) (p : Peer) (req : Json) (h : EP P x.st) : EP P (configReq x p req).1.st := by
+  unfold configReq
+  repeat' (first | split | dsimp only)
+  all_goals (first | exact h | exact ep_updatePeer h (fun _ _ _ hq => hq))
+
+theorem ep_authenticateReq (cfg : Config) (x : Ctx) (p : Peer) (req : Json) (h : EP P x.st) :
+    EP P (authenticateReq cfg x p req).1.st := by
+  unfold authenticateReq
+  repeat' (first | split | dsimp only)
+  all_goals (first | exact h | exact ep_updatePeer h (fun _ _ _ hq => hq))
+
+theorem ep_passwdReq (x : Ctx) (p : Peer) (req : Json) (h : EP P x.st) : EP P (passwdReq x p req).1.st := by
+  unfold passwdReq
+  repeat' (first | split | dsimp only)
+  all_goals exact h
+
+theorem ep_removeRoute {ps : List Peer} {o : Nat} {rid : Bytes} (h : ∀ p ∈ ps, EPp P p) :
+    ∀ p ∈ removeRoute ps o rid, EPp P p :=
+  ep_updatePeer h (fun _ _ _ hq => hq)
+
+theorem ep_routeCore (cfg : Config) (x : Ctx) (p : Peer) (req : Json) (isState : Bool)
+    (params : Json) (path : Bytes) (e : Element) (h : EP P x.st) :
+    EP P (routeCore cfg x p req isState params path e).1.st := by
+  unfold routeCore
+  repeat' (first | split | dsimp only)
+  all_goals first
+    | exact h
+    | (simp only [send_st, stored, emit_st]
+       exact ep_updatePeer h (fun _ _ _ hq => hq))
+    | (simp only [emit_st, send_st, stored]
+       exact ep_removeRoute (ep_updatePeer h (fun _ _ _ hq => hq)))
+
+theorem ep_setOrCall (cfg : Config) (x : Ctx) (p : Peer) (req : Json) (isState : Bool) (h : EP P x.st) :
+    EP P (setOrCall cfg x p req isState).1.st := by
+  rcases setOrCall_cases cfg x p req isState with h1 | ⟨params, path, e, hc⟩
+  · rw [h1]; exact h
+  · rw [setOrCall_of_checks hc]; exact ep_routeCore _ _ _ _ _ _ _ _ h
+
+theorem ep_routingResponse (x : Ctx) (p : Peer) (msg payload : Json) (typ : String) (h : EP P x.st) :
+    EP P (routingResponse x p msg payload typ).1.st := by
+  unfold routingResponse
+  repeat' (first | split | dsimp only)
+  all_goals (first | exact h | (simp only [send'_st, emit_st]; exact ep_removeRoute h))
+
+theorem ep_timeoutFired (x : Ctx) (t : Nat) (h : EP P x.st) : EP P (timeoutFired x t).st := by
+  unfold timeoutFired
+  repeat' (first | split | dsimp only)
+  all_goals (first | exact h | (simp only [send'_st, emit_st]; exact ep_removeRoute h))
+
+theorem ep_sendResponse (x : Ctx) (c : Nat) (r : Option Json) (h : EP P x.st) : EP P (sendResponse x c r).1.st := by
+  unfold sendResponse
+  split
+  · exact h
+  · rw [send_st]; exact h
+
+/-- `add` is the only method that needs the side condition -/
+theorem ep_handleMethod (cfg : Config) (x : Ctx) (p : Peer) (req : Json) (m : Bytes) (heo : EO x.st)
+    (h : EP P x.st) (hnew : m = k "add" → AddOk P cfg p.conn req) :
+    EP P (handleMethod cfg x p req m).1.st := by
+  unfold handleMethod
+  by_cases h1 : (m == k "change") = true
+  · rw [if_pos h1]; exact ep_changeState _ _ _ heo h
+  rw [if_neg h1]
+  by_cases h2 : (m == k "set") = true
+  · rw [if_pos h2]; exact ep_setOrCall _ _ _ _ _ h
+  rw [if_neg h2]
+  by_cases h3 : (m == k "call") = true
+  · rw [if_pos h3]; exact ep_setOrCall _ _ _ _ _ h
+  rw [if_neg h3]
+  by_cases h4 : (m == k "add") = true
+  · rw [if_pos h4]; exact ep_addElement _ _ _ _ h (hnew (by simpa using h4))
+  rw [if_neg h4]
+  by_cases h5 : (m == k "remove") = true
+  · rw [if_pos h5]; exact ep_removeElementReq _ _ _ h
+  rw [if_neg h5]
+  by_cases h6 : (m == k "fetch") = true
+  · rw [if_pos h6]; exact ep_fetchReq _ _ _ _ h
+  rw [if_neg h6]
+  by_cases h7 : (m == k "unfetch") = true
+  · rw [if_pos h7]; exact ep_unfetchReq _ _ _ h
+  rw [if_neg h7]
+  by_cases h8 : (m == k "get") = true
+  · rw [if_pos h8]; exact ep_getReq _ _ _ _ h
+  rw [if_neg h8]
+  by_cases h9 : (m == k "config") = true
+  · rw [if_pos h9]; exact ep_configReq _ _ _ h
+  rw [if_neg h9]
+  by_cases h10 : (m == k "info") = true
+  · rw [if_pos h10]; exact h
+  rw [if_neg h10]
+  by_cases h11 : (m == k "authenticate") = true
+  · rw [if_pos h11]; exact ep_authenticateReq _ _ _ _ h
+  rw [if_neg h11]
+  by_cases h12 : (m == k "passwd") = true
+  · rw [if_pos h12]; exact ep_passwdReq _ _ _ h
+  rw [if_neg h12]
+  exact h
+
+/-- the side condition for one request object of peer `c` -/
+def ReqOk (P : Nat → Bytes → Nat → Prop) (cfg : Config) (c : Nat) (req : Json) : Prop :=
+  req.getItem (k "method") = some (.str (k "add")) → AddOk P cfg c req
+
+theorem ep_parseJsonRpc (cfg : Config) (x : Ctx) (c : Nat) (req : Json) (heo : EO x.st) (h : EP P x.st)
+    (hnew : ReqOk P cfg c req) : EP P (parseJsonRpc cfg x c req).1.st := by
+  unfold parseJsonRpc
+  split
+  · exact h
+  · next p hp =>
+    split
+    · next m hm =>
+      refine ep_sendResponse _ _ _ (ep_handleMethod _ _ _ _ _ heo h ?_)
+      intro e
+      rw [findPeer_conn hp]
+      exact hnew (by rw [hm, e])
+    · exact ep_sendResponse _ _ _ h
+    · split
+      · exact ep_routingResponse _ _ _ _ _ h
+      · split
+        · exact ep_routingResponse _ _ _ _ _ h
+        · exact ep_sendResponse _ _ _ h
+
+theorem ep_parseJsonArray (cfg : Config) (c : Nat) (l : List Json) (x : Ctx) (heo : EO x.st) (h : EP P x.st)
+    (hnew : ∀ req ∈ l, ReqOk P cfg c req) : EP P (parseJsonArray cfg x c l).1.st := by
+  induction l generalizing x with
+  | nil => exact h
+  | cons j rest ih =>
+    cases j with
+    | obj m =>
+      unfold parseJsonArray
+      dsimp only
+      have h1 := ep_parseJsonRpc cfg x c (.obj m) heo h (hnew _ (List.mem_cons_self ..))
+      split
+      · exact ih _ (eo_parseJsonRpc cfg x c _ heo) h1 (fun r hr => hnew r (List.mem_cons_of_mem _ hr))
+      · exact h1
+    | null => exact h
+    | bool _ => exact h
+    | num _ => exact h
+    | str _ => exact h
+    | arr _ => exact h
+
+/-- the request objects of a message -/
+def msgRequests : Option Json → List Json
+  | some (.arr l) => l
+  | some (.obj m) => [.obj m]
+  | _ => []
+
+theorem ep_parseMessage (cfg : Config) (x : Ctx) (c : Nat) (msg : Option Json) (heo : EO x.st) (h : EP P x.st)
+    (hnew : ∀ req ∈ msgRequests msg, ReqOk P cfg c req) : EP P (parseMessage cfg x c msg).1.st := by
+  unfold parseMessage
+  split
+  · exact ep_parseJsonArray cfg c _ x heo h hnew
+  · exact ep_parseJsonRpc cfg x c _ heo h (hnew _ (List.mem_singleton.mpr rfl))
+  · exact h
+
+theorem ep_fprC (x : Ctx) (c : Nat) (p : Peer) (h : EP P x.st) : EP P (fprC x c p).st := by
+  unfold fprC
+  dsimp only
+  apply foldl_inv (fun (y : Ctx) => EP P y.st)
+  · exact ep_updatePeer (ep_mapElements h (fun _ => ⟨rfl, rfl⟩)) (fun _ _ _ hq => hq)
+  · intro y e0 _ hy
+    split
+    · exact ep_removeElement _ _ hy
+    · exact hy
+
+theorem ep_freePeerResources (x : Ctx) (c : Nat) (h : EP P x.st) : EP P (freePeerResources x c).st := by
+  cases hp : findPeer x.st.peers c with
+  | none => unfold freePeerResources; rw [hp]; exact h
+  | some p =>
+    rw [freePeerResources_eq x c p hp]
+    have hA : EP P (fprA x c p).st := by
+      simp only [fprA, clearAll_st]
+      exact ep_updatePeer h (fun _ _ _ hq => hq)
+    have hB : EP P (fprB (fprA x c p) c).st := by
+      simp only [fprB, clearAll_st]
+      exact ep_map hA (fun _ _ hq => hq)
+    have hC := ep_fprC _ c p hB
+    intro q hq
+    exact hC q (List.mem_filter.mp hq).1
+
+theorem ep_closePeer (x : Ctx) (c : Nat) (h : EP P x.st) : EP P (closePeer x c).st :=
+  ep_freePeerResources x c h
+
+/-- the side condition for one operation -/
+def OpAddOk (P : Nat → Bytes → Nat → Prop) (cfg : Config) : Op → Prop
+  | .message c msg _ => ∀ req ∈ msgRequests msg, ReqOk P cfg c req
+  | _ => True
+
+/-- Any predicate on (owner, path, timeout) that `add` establishes for its own element is an
+    invariant of `step`: no operation changes the path or the timeout of an existing element or
+    moves it to another peer. -/
+theorem ep_step (cfg : Config) (s : State) (op : Op) (heo : EO s) (h : EP P s) (hnew : OpAddOk P cfg op) :
+    EP P (step cfg s op).1 := by
+  cases op with
+  | connect c ws isLocal addr =>
+    rw [step_connect]
+    split
+    · exact h
+    · intro p hp
+      rcases List.mem_append.mp hp with hp | hp
+      · exact h p hp
+      · simp only [List.mem_singleton] at hp
+        subst hp
+        intro e he
+        cases he
+  | message c msg o =>
+    rw [step_message]
+    split
+    · exact h
+    · dsimp only
+      split
+      · exact ep_parseMessage cfg _ c msg heo h hnew
+      · exact ep_closePeer _ c (ep_parseMessage cfg _ c msg heo h hnew)
+  | disconnect c o =>
+    rw [step_disconnect]
+    split
+    · exact h
+    · exact ep_closePeer _ c h
+  | timerFire t o =>
+    exact ep_timeoutFired _ t h
 
 end Cjet.Daemon.C14
